@@ -275,6 +275,9 @@ pub fn exec(actor: &mut Actor, rc: &RunCtx, step: &Value) {
     if !step["tls"].is_null() {
         call.insert("tls".into(), step["tls"].clone());
     }
+    if !step["unw"].is_null() {
+        call.insert("unw".into(), step["unw"].clone());
+    }
     if op == "root" {
         call.insert("tr".into(), json!(hex32(rc.trace(geti("tr")))));
         call.insert("smp".into(), json!(step["smp"].as_bool().unwrap_or(true)));
@@ -297,6 +300,11 @@ pub fn exec(actor: &mut Actor, rc: &RunCtx, step: &Value) {
             }));
             if let Ok(ev) = built {
                 PREBUILT.with(|b| *b.borrow_mut() = Some((ev, cc.get())));
+                // in the timed instances every other pre-built event waits 5 ms for its add_event call: longer
+                // than the tolerance on wall-clock readings
+                if shared().op_sleep_us.load(std::sync::atomic::Ordering::Relaxed) > 0 && rc.variant(step["evt"]["name"].as_i64().unwrap_or(0) + 7, 2) == 0 {
+                    std::thread::sleep(std::time::Duration::from_millis(5));
+                }
             }
         }
     }
